@@ -136,6 +136,25 @@ def extract(repo):
                 [e.get('id') for e in out] == [1, 2]
         except Exception:   # noqa
             facts['overflow_sticky'] = None
+        # ---- request batch or response batch?  every two-member list over {request,
+        # response-looking}: handled as a request batch <=> a Request item comes back, or the
+        # ProtocolError raised carries a batch (a JSON list) as the message for the peer
+        def as_request_batch(flags):
+            members = [({'jsonrpc': '2.0', 'result': k, 'id': 90 + k} if f else req(k + 1))
+                       for k, f in enumerate(flags)]
+            c = jr.JSONRPCConnection(proto)
+            try:
+                items = c.receive_message(json.dumps(members).encode())
+                return any(isinstance(i, jr.Request) for i in items)
+            except jr.ProtocolError as e:
+                try:
+                    return isinstance(json.loads(e.error_message), list)
+                except Exception:   # noqa
+                    return False
+            except Exception:   # noqa
+                return False
+        facts['dispatch_table'] = [[a, b, as_request_batch((a, b))]
+                                   for a in (False, True) for b in (False, True)]
     finally:
         asyncio.set_event_loop(None)
         loop.close()
@@ -176,4 +195,8 @@ def render(f):
         f'def invalidMembersAccounted : Option Bool := {_ob(f.get("invalid_members_accounted"))}\n'
         '/-- `[request 100 bytes over, request that would fit on its own]`: both are replaced -/\n'
         f'def overflowSticky : Option Bool := {_ob(f.get("overflow_sticky"))}\n'
+        '/-- `receive_message` on `[a, b]`: (a looks like a response, b looks like a response,\n'
+        '    handled as a request batch) -/\n'
+        'def dispatchTable : List (Bool × Bool × Bool) := ['
+        + ', '.join(f'({_b(a)}, {_b(b)}, {_b(r)})' for a, b, r in f.get('dispatch_table', [])) + ']\n'
         'end Aiorpcx.Facts.C02\n')
